@@ -50,6 +50,15 @@ def step (st : DState) (line : String) : DState × String :=
     match parseStr c with
     | some c => (st, showRes showBool (IBAN.isValid X c))
     | none => bad
+  | ["iban.obj_seq", c, steps] =>
+    match parseStr c with
+    | some c =>
+      let outs := steps.toList.map (fun ch =>
+        if ch == 'v' then showRes showBool (IBAN.validate X c false)
+        else if ch == 'V' then showRes showBool (IBAN.validate X c true)
+        else showRes showBool (IBAN.isValid X c))
+      (st, "ok " ++ ";".intercalate outs)
+    | none => bad
   | ["iban.parts", c] =>
     match parseStr c with
     | some c =>
